@@ -62,31 +62,25 @@ def _classify(out: str) -> tuple[str, str]:
 
 
 def make_twins(modname: str, names: list[str]) -> str:
-    """Write a module with a reachability twin for each harness function."""
+    """Write a module with a reachability twin for each harness function: a textual
+    copy of the harness module plus, per obligation, a copy of the function whose
+    postcondition is negated."""
     mod = importlib.import_module(modname)
     os.makedirs(GEN_DIR, exist_ok=True)
-    lines = [f"from {modname} import *  # noqa", f"import {modname} as _m", ""]
+    src_path = inspect.getsourcefile(mod)
+    assert src_path
+    with open(src_path) as f:
+        lines = [f.read(), "", "# ---- reachability twins (generated) ----"]
     for n in names:
-        fn = getattr(mod, n)
-        sig = inspect.signature(fn)
-        doc = inspect.getdoc(fn) or ""
-        pres = [ln.strip() for ln in doc.splitlines() if ln.strip().startswith("pre:")]
-        params = ", ".join(f"{p.name}: {_ann(p.annotation)}" for p in sig.parameters.values())
-        args = ", ".join(p.name for p in sig.parameters.values())
-        body = "\n".join(["    '''"] + [f"    {p}" for p in pres] + ["    post: not _", "    '''", f"    return _m.{n}({args})"])
-        lines.append(f"def {n}__reach({params}) -> bool:\n{body}\n")
+        fn_src = inspect.getsource(getattr(mod, n))
+        fn_src = re.sub(rf"^def {re.escape(n)}\(", f"def {n}__reach(", fn_src, count=1, flags=re.M)
+        assert "post: _" in fn_src, f"{n} lacks 'post: _'"
+        fn_src = fn_src.replace("post: _", "post: not _")
+        lines.append(fn_src)
     path = os.path.join(GEN_DIR, f"{modname.replace('.', '_')}_twins.py")
     with open(path, "w") as f:
         f.write("\n".join(lines))
     return path
-
-
-def _ann(a: Any) -> str:
-    if isinstance(a, str):
-        return a
-    if a is inspect.Parameter.empty:
-        return "int"
-    return getattr(a, "__name__", None) and (a.__name__ if a.__module__ == "builtins" else repr(a).replace("typing.", "")) or repr(a).replace("typing.", "")
 
 
 def run_obligations(
